@@ -173,6 +173,9 @@ func applyTarget(target []byte, st *state.State, ca cache.Memory, ctx context.Co
 		return location, idx, nil
 	default:
 		sym = string(target)
+		if top, _ := st.Where(); top == sym {
+			return sym, idx, fmt.Errorf("already at node '%s'", sym)
+		}
 		if st.Depth() >= state.MaxLevel {
 			return sym, idx, fmt.Errorf("max levels exceeded (%d)", state.MaxLevel)
 		}
